@@ -493,22 +493,33 @@ def c14_r4(ctx):
             ctx.viol((f.id, "repeated-name-unchecked"), "a repeated name can be accepted without its kind (file / directory) having been compared with the earlier entry: one of the two entries is silently dropped", f.where(bb, idx))
         else:
             ctx.ok()
-    # producer: PathBundle{nodes} built from map.into_iter()
+    # producer: PathBundle{nodes}: the node vector is filled by one complete traversal of the BTreeMap
     for h in prod(ctx.P):
         for (bb, idx, rv, pl) in h.constructs("bundle::PathBundle"):
             if h.body.get("derived"):
                 continue
             ctx.inst("PathBundle built in %s" % h.id, h.where(bb, idx))
-            no = h.origins_of_operand(rv["ops"][0])
-            ok = no and all(is_call(o, "std::iter::Iterator::collect") for o in no)
-            if ok:
-                for o in no:
-                    cc = h.call_at[o[0][2]]
-                    src = h.origins_of_operand(cc.args[0])
-                    if not all(is_call(s, "std::collections::BTreeMap::<K, V>::new") or (s[0][0] == "call" and "BTreeMap" in s[0][3]) for s in src):
-                        ok = False
-                    if any(st[0] == "truncate" for s in src for st in s[1:]):
-                        ok = False
+            nv = h.vars_of_operand(rv["ops"][0])
+            nv_o = h.origins_of_operand(rv["ops"][0])
+            ok = False
+            for lp in h.loops():
+                from_map = lp["iter"] and all(o[0][0] == "call" and "BTreeMap" in o[0][3] and not any(st[0] == "truncate" for st in o[1:]) for o in lp["iter"])
+                if not from_map:
+                    continue
+                pushes = [p2 for p2 in h.calls_to("std::vec::Vec::<T, A>::push") if p2.bb in lp["body"] and
+                          (h.vars_of_operand(p2.args[0]) == nv or h.origins_of_operand(p2.args[0]) == nv_o)]
+                if pushes and h.every_iteration_calls(lp, [p2.bb for p2 in pushes]) and not h.loop_exits(lp):
+                    ok = True
+            if not ok:
+                # (not yet desugared form) collect(map(into_iter(btreemap)))
+                no = nv_o
+                ok = bool(no) and all(is_call(o, "std::iter::Iterator::collect") for o in no)
+                if ok:
+                    for o in no:
+                        cc = h.call_at[o[0][2]]
+                        src = h.origins_of_operand(cc.args[0])
+                        if not all(s2[0][0] == "call" and "BTreeMap" in s2[0][3] for s2 in src) or any(st[0] == "truncate" for s2 in src for st in s2[1:]):
+                            ok = False
             if ok:
                 ctx.ok()
             else:
@@ -642,46 +653,50 @@ def c13_r3(ctx):
 
 
 def _is_sorted_pred(ctx, f):
-    """windows(2).all(|w| w[0] <= w[1])"""
+    """windows(2).all(|w| w[0] <= w[1])  (seen after desugaring as a loop over windows(2))"""
     w = [c for c in f.calls if c.path == "core::slice::<impl [T]>::windows"]
     if len(w) != 1 or w[0].args[1].get("bits") != "2":
         return False
     if not all(o[0][0] == "param" for o in f.origins_of_operand(w[0].args[0])):
         return False
-    al = [c for c in f.calls if c.path == "std::iter::Iterator::all"]
-    if len(al) != 1:
+    wo = f._call_origins(w[0], (), frozenset())
+    lps = [lp for lp in f.loops() if lp["iter"] == wo]
+    if len(lps) != 1:
         return False
-    cl = None
-    for o in f.origins_of_operand(al[0].args[1]):
-        if o[0][0] == "agg" and o[0][4] == "closure":
-            cl = ctx.P.fns[f.blocks[o[0][2]]["stmts"][o[0][3]]["rv"]["kind"]["body"]]
-    if cl is None:
-        return False
-    les = [c for c in cl.calls if c.path == "std::cmp::PartialOrd::le"]
+    lp = lps[0]
+    les = [c for c in f.calls if c.path == "std::cmp::PartialOrd::le" and c.bb in lp["body"]]
     if len(les) != 1:
         return False
-    # operands are w[0] and w[1] in this order
     idx = []
     for a in les[0].args:
         found = None
-        for b in cl.blocks:
-            t = b["term"]
-            if t["k"] == "assert" and t["msg"]["k"] == "bounds_check":
-                pass
-        org = cl.origins_of_operand(a)
-        for o in org:
+        for o in f.origins_of_operand(a):
+            if not any(o[:len(e)] == e for e in lp["elem"]):
+                return False
             ix = [st for st in o if st[0] in ("index", "cindex")]
             if ix:
                 st = ix[-1]
                 if st[0] == "cindex":
                     found = st[1]
                 else:
-                    io = cl._origins(st[1], (), frozenset())
-                    for q in io:
+                    for q in f._origins(st[1], (), frozenset()):
                         if q[0][0] == "const":
-                            found = int(q[0][1].split("_")[0])
+                            found = int(str(q[0][1]).split("_")[0])
         idx.append(found)
-    return idx == [0, 1] and cl.origins_of_place({"local": 0, "proj": []}) == cl._call_origins(les[0], (), frozenset())
+    if idx != [0, 1]:
+        return False
+    le_false = f.bool_edges_of_call(les[0], False)
+    for (kind, bb, i, place, payload) in f.defs.get(0, ()):
+        if kind != "assign" or payload["k"] != "use" or payload["op"]["k"] != "const":
+            return False
+        val = payload["op"].get("bits") == "1"
+        if val and not f.dominated_by_edges(bb, {lp["none"]}):
+            return False
+        if not val and not f.dominated_by_edges(bb, le_false):
+            return False
+    # an out-of-order pair always yields false
+    r = f.reach([x for (_, x) in le_false], avoid_blocks=[bb for (kind, bb, i, place, payload) in f.defs.get(0, ()) if kind == "assign" and payload["op"].get("bits") == "0"])
+    return lp["header"] not in r and not any(b2 in r for b2 in f.return_blocks)
 
 
 @rule("C13.R4", floor=3)
@@ -734,3 +749,38 @@ def c13_r4(ctx):
                     ctx.viol((f.id, "frame-copy-loses", tuple(bad)), "marking a frame visited changes its %s" % ", ".join(bad), f.where(bb, idx))
                 else:
                     ctx.ok()
+
+
+WS_GENERAL = ("trim", "trim_start", "trim_end", "trim_left", "trim_right", "trim_ascii", "trim_ascii_start", "trim_ascii_end",
+              "split_whitespace", "split_ascii_whitespace", "is_whitespace", "is_ascii_whitespace")
+
+
+@rule("C14.R6", floor=1)
+def c14_r6(ctx):
+    """Only tabs indent and a name is everything after them: in the line lexer neither the
+    level nor the text of a NumberedIndentedLine derives from an operation that treats all
+    white space alike (trim*, split_whitespace, is_whitespace)."""
+    n = 0
+    for f in ctx.P.fns.values():
+        if f.body.get("in_test") or f.kind == "promoted" or f.body.get("derived"):
+            continue
+        sites = f.constructs("bundle::NumberedIndentedLine")
+        if not sites:
+            continue
+        ctx.saw(f)
+        seeds = {c.dest["local"]: c for c in f.calls if c.name in WS_GENERAL and ("str" in c.path or "char" in c.path)}
+        T = f.tainted_locals(lambda l: l in seeds) if seeds else set()
+        for (bb, idx, rv, pl) in sites:
+            names = rv["kind"]["fields"]
+            for fld in ("level", "text"):
+                if fld not in names:
+                    continue
+                n += 1
+                ctx.inst("NumberedIndentedLine.%s" % fld, f.where(bb, idx))
+                op = rv["ops"][names.index(fld)]
+                if op["k"] in ("copy", "move") and op["place"]["local"] in T:
+                    c = next(iter(seeds.values()))
+                    ctx.viol((f.id, "indentation-by-general-whitespace", fld), "the %s of a bundle line derives from `%s`: blanks and other white space would count as indentation or be cut from the name, so a written path is not reproduced" % (fld, c.name), c.where)
+                else:
+                    ctx.ok()
+    ctx.need(n, "construction of bundle::NumberedIndentedLine")
